@@ -277,6 +277,18 @@ func c15Corpus(c *Ctx) (nRules, nHosts, evals int64) {
 				continue
 			}
 			parsed = append(parsed, cr)
+			if len(line) > 4000 {
+				// a rule longer than the scanner's buffer: a domain from its head and one from its tail
+				t := strings.TrimSpace(line)
+				if i := strings.Index(t, "#"); i > 0 {
+					ds := strings.Split(t[:i], ",")
+					for _, d := range []string{ds[0], ds[len(ds)-1]} {
+						if !strings.HasPrefix(d, "~") && !strings.HasSuffix(d, ".*") {
+							addHost(d)
+						}
+					}
+				}
+			}
 			if li%97 == 0 {
 				// a domain the rule names, and a sub-domain of it
 				t := strings.TrimSpace(line)
@@ -495,6 +507,36 @@ func init() {
 				c.Run.Sample(map[string]any{"rules": ls, "hosts": c15Hosts})
 			}
 		})
+		// a rule longer than the list scanner's 4 KiB buffer: hosts from its head and its tail
+		{
+			var ds []string
+			for i := 0; i < 420; i++ {
+				ds = append(ds, fmt.Sprintf("site%04d.test", i))
+			}
+			long := strings.Join(ds, ",") + "##.long"
+			longExc := strings.Join(ds[200:], ",") + "#@#.long"
+			lines := []string{"##.g1", long, longExc, "site0001.test##.s1"}
+			var parsed []*rules.CosmeticRule
+			for _, l := range lines {
+				r, err := rules.NewCosmeticRule(l, 1)
+				if err != nil {
+					panic(HarnessError("long cosmetic rule does not parse: " + err.Error()))
+				}
+				parsed = append(parsed, r)
+			}
+			ce := urlfilter.NewCosmeticEngine(stringStorage(joinLines(lines) + "\n"))
+			for _, h := range []string{"site0000.test", "site0001.test", "site0199.test", "site0200.test", "site0419.test", "www.site0419.test", "other.test"} {
+				wantG, wantS := c15Reference(parsed, h, true, true)
+				res := ce.Match(h, true, true, true)
+				evals++
+				if gotG, gotS := sortedSet(res.ElementHiding.Generic), sortedSet(res.ElementHiding.Specific); !eqStrings(gotG, wantG) || !eqStrings(gotS, wantS) {
+					c.Run.Violate(ev.Violation{Pred: "selectors-equal-reference", Sig: map[string]any{"rules": "a rule of 420 domains (longer than 4 KiB), its exception for the last 220, two short rules", "host": h},
+						What:   fmt.Sprintf("list with an element-hiding rule of %d bytes: CosmeticEngine.Match(%q): generic=%v specific=%v, expected generic=%v specific=%v", len(long), h, gotG, gotS, wantG, wantS),
+						Replay: map[string]any{"corpus": true}})
+					break
+				}
+			}
+		}
 		cr, ch, cev := c15Corpus(c)
 		evals += cev
 		c.Run.Set("corpus_rules", cr)
